@@ -1078,8 +1078,9 @@ impl Vm {
 
     fn jump_finally_impl(&mut self) {
         let return_value = self.peek(0);
-        self.active_fiber_mut().return_ip = Some(self.ip);
-        self.active_fiber_mut().return_value = return_value;
+        let return_ip = self.ip;
+        self.active_fiber_mut()
+            .set_return_data(return_value, return_ip);
         self.pop();
         let (new_ip, init_stack_size) = {
             let handler = self
